@@ -12,10 +12,6 @@ mod entries;
 mod scan;
 mod seeds;
 
-use std::{
-    sync::mpsc,
-    time::Duration,
-};
 
 use h_lib::{h_util, Outcome, Req, Rng};
 
@@ -36,24 +32,15 @@ pub enum Ran {
     Hung,
 }
 
-/// Run one entry point on one input with a deadline. A hung worker thread is abandoned.
+/// Run one entry point on one input with a deadline (20 s) on the long-lived watchdog worker, under
+/// catch_unwind. A worker that hangs is abandoned (it keeps spinning) and replaced.
 fn run_guarded(entry: &'static entries::Entry, input: Vec<u8>) -> Ran {
-    let (tx, rx) = mpsc::channel();
-    std::thread::Builder::new()
-        .stack_size(16 << 20)
-        .spawn(move || {
-            let r = h_util::guarded(|| (entry.run)(&input));
-            let _ = tx.send(match r {
-                Ok(Some(d)) => Ran::Accepted(d),
-                Ok(None) => Ran::Rejected,
-                Err(()) => Ran::Panicked,
-            });
-        })
-        .expect("spawn");
-    match rx.recv_timeout(Duration::from_secs(20)) {
-        Ok(r) => r,
-        // the thread died without sending: stack overflow would abort the process, so this is a hang
-        Err(_) => Ran::Hung,
+    match scan::with_deadline_secs(20, move || (entry.run)(&input)) {
+        Some(Ok(Some(d))) => Ran::Accepted(d),
+        Some(Ok(None)) => Ran::Rejected,
+        Some(Err(())) => Ran::Panicked,
+        // a stack overflow would have aborted the process, so no answer within the deadline is a hang
+        None => Ran::Hung,
     }
 }
 
